@@ -7,7 +7,7 @@ From Rustun Require Import Base.Tlv Agent.Reasm Agent.ReasmDrive Agent.ReasmRs.
 From Rustun Require Import Agent.Rto Agent.Model Agent.Monitors.
 From Rustun Require Import Codec.Wire Codec.WireMon Codec.EncodeMsg.
 From Rustun Require Import Agent.ArcHeap Proofs.ArcHeapProofs.
-From Rustun Require Import Codec.AttrValue Codec.WireFull Codec.Message Codec.Keys.
+From Rustun Require Import Codec.AttrValue Codec.WireFull Codec.Message Codec.Keys Codec.Ignored.
 Extraction Language OCaml.
 Extraction "model.ml"
   FilterCase.filter_case FilterCase.monitor_C09 FilterCase.monitor_C18_all
@@ -18,4 +18,5 @@ Extraction "model.ml"
   ArcHeap.heap0 ArcHeapProofs.outs_s ArcHeapProofs.outs_p ArcHeapProofs.wfb
   AttrValue.av_case_dec AttrValue.av_case_enc AttrValue.av_wf
   WireFull.dec_ok_full WireFull.typed_attrs
-  Message.encode_typed Message.decode_typed Message.monitor_C01 Message.ctor_of Message.quoted_roundtrips Message.ctor_class Keys.st_key Keys.lt_key.
+  Message.encode_typed Message.decode_typed Message.monitor_C01 Message.ctor_of Message.quoted_roundtrips Message.ctor_class Keys.st_key Keys.lt_key
+  Ignored.monitor_C02ign Ignored.diff_bits.
